@@ -39,6 +39,9 @@ CANDS = {
     "r/sub/k2.py": "file",
     "r/lib": "dir",
     "r/lib/util.py": "file",
+    # a sibling PACKAGE whose name extends module_path's (r/sub_x next to r/sub): external for a scan of r/sub
+    "r/sub_x": "dir",
+    "r/sub_x/h.py": "file",
 }
 LINES = {
     "r/m.py": ["import logging", "import logging.handlers", "import os.path", "import rx.util", "import handlers", "import r.handlers", "from r.sub import k"],
@@ -50,6 +53,10 @@ LINES_SMALL = {
     # relative imports that climb above module_path r/sub (their targets are external for that scan) and an import
     # of module_path's own ancestor package
     "r/sub/k.py": ["import logging.handlers", "import r.m", "import r.subx", "from . import k2", "from .. import m", "from ..lib.util import helper", "import r"],
+}
+LINES_SIBLING = {
+    "r/m.py": ["import r.sub_x.h", "import logging.handlers"],
+    "r/sub/k.py": ["import r.sub_x.h", "import r.sub_x", "import r.m", "from ..sub_x import h", "import logging"],
 }
 LINES_SMALL_ROOT = {
     "r/m.py": LINES_SMALL["r/m.py"],
@@ -76,11 +83,17 @@ CONFIGS = [
     # patterns that match an internal ANCESTOR package of an imported internal module
     (False, "glob", ("*sub",)),
     (False, "regex", (r".*\.sub$", "logging")),
+    # a pattern matching the sibling package r.sub_x itself (its sub modules go with it when it is external)
+    (False, "regex", (r"r\.sub_x$",)),
+    (False, "glob", ("r.sub_x", "os")),
+    # the other option of the pair supplied as an explicit EMPTY tuple (legitimate; it must change nothing)
+    (False, "regex+empty-glob", ("logging$", r".*\.handlers")),
+    (False, "glob+empty-regex", ("logging", "*.path")),
 ]
 
 
 def pat_match(kind: str, pats, name: str) -> bool:
-    if kind == "glob":
+    if kind.startswith("glob"):
         return any(glob_match(p, name) for p in pats)
     return any(re.match(p, name) is not None for p in pats)
 
@@ -96,7 +109,11 @@ def scan(base: str, mp_rel: str, cfg):
     excl, kind, pats = cfg
     kw = {"exclude_external_libraries": excl}
     if pats:
-        kw["external_exclusions" if kind == "glob" else "regex_external_exclusions"] = tuple(pats)
+        kw["external_exclusions" if kind.startswith("glob") else "regex_external_exclusions"] = tuple(pats)
+    if kind == "regex+empty-glob":
+        kw["external_exclusions"] = ()
+    if kind == "glob+empty-regex":
+        kw["regex_external_exclusions"] = ()
     try:
         ev = get_evaluable_architecture(os.path.join(base, "r"), os.path.join(base, mp_rel), **kw)
     except Exception as e:  # noqa: BLE001
@@ -220,14 +237,20 @@ def harness(inst, model):
 
 
 def make_model(inst) -> FSModel:
-    return FSModel(CANDS, {"full": LINES, "small": LINES_SMALL, "small-root": LINES_SMALL_ROOT}[inst["lines"]], fixed=FIXED)
+    return FSModel(CANDS, {"full": LINES, "small": LINES_SMALL, "small-root": LINES_SMALL_ROOT, "sibling": LINES_SIBLING}[inst["lines"]], fixed=FIXED)
 
 
 def instances(tier: str) -> list[dict]:
     out = []
     for cfg in CONFIGS:
+        if any("sub_x" in p for p in cfg[2]):
+            for mp in ("r", "r/sub"):
+                out.append({"mp": mp, "cfg": [cfg[0], cfg[1], list(cfg[2])], "lines": "sibling", "cap": CAPS[tier]})
+            continue
         out.append({"mp": "r", "cfg": [cfg[0], cfg[1], list(cfg[2])], "lines": "full" if tier == "thorough" else "small-root", "cap": CAPS[tier]})
         out.append({"mp": "r/sub", "cfg": [cfg[0], cfg[1], list(cfg[2])], "lines": "small", "cap": CAPS[tier]})
+    for cfg in (CONFIGS[0], CONFIGS[1]):
+        out.append({"mp": "r/sub", "cfg": [cfg[0], cfg[1], list(cfg[2])], "lines": "sibling", "cap": CAPS[tier]})
     if tier == "quick":
         # the full line set on the configurations that matter most
         for cfg in (CONFIGS[1], CONFIGS[4]):
